@@ -133,11 +133,12 @@ def specSoapOpenForeign {ε : Type} [DecidableEq ε] (env : Envelope ε) (out : 
     what the general sentences ask (caller strings are data; the message arrives) and only on the
     inputs where the binding is defined at all. -/
 
-/-- `SAMLRequest` form: for a destination without query and fragment the receiver's parameters are
-    `ID` = the message and RelayState iff given.  (Destinations that already carry `?` or `#` and
-    the empty message: unconstrained.) -/
+/-- `SAMLRequest` form, EVERY destination (no query, empty query, existing query, trailing `&` or
+    `?`, fragment): the receiver's parameters are the destination's own followed by exactly `ID` =
+    the message and RelayState iff given.  (The empty message: unconstrained, `parse_qsl` drops blank
+    values.) -/
 def specUriRequest (msg dest rs url : Bytes) : Bool :=
-  dest.contains 63 || dest.contains 35 || msg.isEmpty || specUrl dest (withRelay (sID, msg) rs) url
+  msg.isEmpty || specUrl dest (withRelay (sID, msg) rs) url
 
 /-- `SAMLResponse` form: a one-line message without surrounding white space is the body, unchanged
     (code points). -/
